@@ -121,7 +121,7 @@ for tname, sig, argdecl, arg in [('string', 'std::size_t (const std::basic_strin
     UNITS.append(Unit('exp.rotate_output.' + tname, (EXP + 'rotate_output', sig), contract=ROT_C, prelude=P,
                       pre_c=PRE2 + 'unsigned long g_closed_bytes;\n', defines=DEF + ['ENC_MAY_FAIL'], extern_records=EXT, stubs=BLK_STUBS,
                       replace=['exp.write_block'], gen_stubs=ROT_STUB, ghost=GH_R, setup=EXP_SETUP + argdecl + '  _Bool a_export;\n',
-                      args=['&obj', arg, 'a_export'], props=['C02', 'C10', 'C13', 'C16'], timeout=900,
+                      args=['&obj', arg, 'a_export'], props=['C02', 'C10', 'C13', 'C16', 'C15'], timeout=900,
                       post='  if (g_exc != 0) { CANARY("output failure reachable"); }',
                       note='optional export, stop code iff a header was written, then the encoder switches outputs: the closed output is empty or '
                            'one complete item (asserted at the switch), the new one starts empty with the block counter reset; without export '
@@ -139,7 +139,7 @@ __CPROVER_ensures(@W0 != 0 ==> ((g_mon.t == 0 && g_mon.need[0] == 0 && g_mon.don
 UNITS.append(Unit('exp.dtor', (EXP + '~CdnsExporter', None), contract=DT_C, prelude=P, pre_c=PRE2 + '_Bool g_dtor_failed;\n', defines=DEF,
                   extern_records=EXT, stubs=ENC_STUBS, ghost=[('unsigned long', 'B0', 'g_bytes'), ('unsigned long', 'W0', '$this->m_blocks_written')],
                   setup='  static struct CdnsExporter obj;\n  __CPROVER_assume(' + inv('(&obj)') + ' && g_bytes < (1UL << 62));\n  g_dtor_failed = 0;\n',
-                  args=['&obj'], props=['C02', 'C10', 'C13'],
+                  args=['&obj'], props=['C02', 'C10', 'C13', 'C15'],
                   note='destruction closes the block array with exactly one stop code iff a header was written (the "+1" of C10); '
                        'no output failure in this unit (the destructor cannot report one)'))
 
